@@ -348,6 +348,125 @@ Proof.
       eauto.
 Qed.
 
+(* ------------------------------------------------------------------ *)
+(* whole queries on arbitrary (spatially varying) fields                 *)
+(* ------------------------------------------------------------------ *)
+
+(* an answered query is the vector formula at the interpolated wind *)
+Lemma ground_speed_unfold b (sc : scene RNum) slice (alt lat lon tas h x : R) :
+  @ground_speed RNum b sc slice alt lat lon tas h = @GsOk RNum x ->
+  exists u v, @wind RNum sc slice alt lat lon = Some (u, v) /\ x = gsR b tas h u v.
+Proof.
+  unfold ground_speed, wind. destruct (@alt_out_of_range RNum alt); [discriminate|].
+  destruct (nth_error (sc_u sc) slice) as [tu|]; [|discriminate].
+  destruct (nth_error (sc_v sc) slice) as [tv|]; [|discriminate].
+  destruct (interp3 _ _ _ tu _ _ _) as [u|]; [|discriminate].
+  destruct (interp3 _ _ _ tv _ _ _) as [v|]; [|discriminate].
+  intros H; inversion H. exists u, v. split; reflexivity.
+Qed.
+
+(* convex-hull bound: linear interpolation stays between the two node values … *)
+Lemma lerp_between (x0 x1 q f0 f1 lo hi : R) :
+  x0 <= q <= x1 -> lo <= f0 <= hi -> lo <= f1 <= hi -> lo <= @lerp RNum x0 x1 q f0 f1 <= hi.
+Proof.
+  intros Hq H0 H1. unfold lerp. rnum.
+  destruct (Req_dec x1 x0) as [E|E].
+  - assert (q = x0) by lra. subst. replace (x0 - x0) with 0 by lra. rewrite Rmult_0_r. lra.
+  - assert (Hd : 0 < x1 - x0) by lra.
+    set (t := (q - x0) / (x1 - x0)).
+    assert (Ht : 0 <= t <= 1).
+    { unfold t. split.
+      - apply Rmult_le_pos; [lra|]. left. apply Rinv_0_lt_compat. exact Hd.
+      - apply Rmult_le_reg_r with (x1 - x0); [exact Hd|]. unfold Rdiv. rewrite Rmult_assoc, Rinv_l by lra. lra. }
+    replace ((f1 - f0) / (x1 - x0) * (q - x0)) with ((f1 - f0) * t) by (unfold t; field; lra).
+    nra.
+Qed.
+
+Lemma interp_axis_between xs q f lo hi w :
+  (forall i y, f i = Some y -> lo <= y <= hi) -> @interp_axis RNum xs q f = Some w -> lo <= w <= hi.
+Proof.
+  intros Hf. unfold interp_axis. destruct (bracket xs q) as [[[i x0] x1]|] eqn:Eb; [|discriminate].
+  destruct (f i) as [f0|] eqn:E0; [|discriminate]. destruct (f (S i)) as [f1|] eqn:E1; [|discriminate].
+  intros H; inversion H. apply bracket_sound in Eb. destruct Eb as (Hq & _ & _).
+  apply lerp_between; [exact Hq|apply (Hf _ _ E0)|apply (Hf _ _ E1)].
+Qed.
+
+(* … hence the interpolated wind component lies within the range of the grid values *)
+Lemma interp3_between ps las los tb p la lo_ lo hi w :
+  (forall i j k y, @node RNum tb i j k = Some y -> lo <= y <= hi) ->
+  @interp3 RNum ps las los tb p la lo_ = Some w -> lo <= w <= hi.
+Proof.
+  intros Hn. unfold interp3. apply interp_axis_between. intros i y.
+  apply interp_axis_between. intros j y'. apply interp_axis_between. intros k y''. apply Hn.
+Qed.
+
+(* liveness: inside the axes, with rectangular tables, the query is answered *)
+Definition rect (tb : table RNum) (nl nla nlo : nat) : Prop :=
+  length tb = nl /\ forall pl, In pl tb -> length pl = nla /\ forall row, In row pl -> length row = nlo.
+
+Lemma node_defined tb nl nla nlo i j k : rect tb nl nla nlo -> (i < nl)%nat -> (j < nla)%nat -> (k < nlo)%nat ->
+  exists y, @node RNum tb i j k = Some y.
+Proof.
+  intros (Hl & Hr) Hi Hj Hk. unfold node.
+  destruct (nth_error tb i) as [pl|] eqn:E1; [|apply nth_error_None in E1; lia].
+  destruct (Hr pl (nth_error_In _ _ E1)) as (Hla & Hrow).
+  destruct (nth_error pl j) as [row|] eqn:E2; [|apply nth_error_None in E2; lia].
+  specialize (Hrow row (nth_error_In _ _ E2)).
+  destruct (nth_error row k) as [y|] eqn:E3; [eauto|apply nth_error_None in E3; lia].
+Qed.
+
+Definition inside (xs : list R) (q : R) : Prop :=
+  match xs with a :: r => r <> [] /\ a <= q <= last r a | [] => False end.
+
+Lemma interp_axis_live xs q f : inside xs q -> (forall i, (S i < length xs)%nat -> exists y, f i = Some y /\ exists y', f (S i) = Some y') ->
+  exists w, @interp_axis RNum xs q f = Some w.
+Proof.
+  intros Hin Hf. destruct xs as [|a r]; [contradiction|]. destruct Hin as (Hne & Ha & Hl).
+  destruct (bracket_inside r a q Hne Ha Hl) as (i & x0 & x1 & Hb).
+  unfold interp_axis. change (@bracket RNum (a :: r) q) with (bracketR (a :: r) q). rewrite Hb.
+  assert (Hs := bracket_sound _ _ _ _ _ Hb). destruct Hs as (_ & _ & Hn1).
+  assert (Hi : (S i < length (a :: r))%nat).
+  { destruct (le_lt_dec (length (a :: r)) (S i)) as [H|H]; [|exact H].
+    apply (proj2 (nth_error_None (a :: r) (S i))) in H. exfalso.
+    assert (E : @nth_error R (a :: r) (S i) = Some x1) by exact Hn1. rewrite H in E. discriminate. }
+  destruct (Hf i Hi) as (y & Hy & y' & Hy'). rewrite Hy, Hy'. eauto.
+Qed.
+
+Lemma interp3_live ps las los tb p la lo :
+  rect tb (length ps) (length las) (length los) -> inside ps p -> inside las la -> inside los lo ->
+  exists w, @interp3 RNum ps las los tb p la lo = Some w.
+Proof.
+  intros Hr Hp Hla Hlo. unfold interp3.
+  assert (H3 : forall i j, (i < length ps)%nat -> (j < length las)%nat ->
+               exists y, @interp_axis RNum los lo (fun k => @node RNum tb i j k) = Some y).
+  { intros i j Hi Hj. apply interp_axis_live; [exact Hlo|]. intros k Hk.
+    destruct (node_defined tb _ _ _ i j k Hr Hi Hj ltac:(lia)) as (y & Hy).
+    destruct (node_defined tb _ _ _ i j (S k) Hr Hi Hj Hk) as (y' & Hy'). eauto. }
+  assert (H2 : forall i, (i < length ps)%nat ->
+               exists y, @interp_axis RNum las la (fun j => @interp_axis RNum los lo (fun k => @node RNum tb i j k)) = Some y).
+  { intros i Hi. apply interp_axis_live; [exact Hla|]. intros j Hj.
+    destruct (H3 i j Hi ltac:(lia)) as (y & Hy). destruct (H3 i (S j) Hi Hj) as (y' & Hy'). eauto. }
+  apply interp_axis_live; [exact Hp|]. intros i Hi.
+  destruct (H2 i ltac:(lia)) as (y & Hy). destruct (H2 (S i) Hi) as (y' & Hy'). eauto.
+Qed.
+
+Lemma ground_speed_live b (sc : scene RNum) slice (alt lat lon tas h : R) tu tv :
+  alt <= 25000 ->
+  nth_error (sc_u sc) slice = Some tu -> nth_error (sc_v sc) slice = Some tv ->
+  rect tu (length (sc_levels sc)) (length (sc_lats sc)) (length (sc_lons sc)) ->
+  rect tv (length (sc_levels sc)) (length (sc_lats sc)) (length (sc_lons sc)) ->
+  inside (sc_levels sc) (@level RNum alt) -> inside (sc_lats sc) lat -> inside (sc_lons sc) lon ->
+  exists x, @ground_speed RNum b sc slice alt lat lon tas h = @GsOk RNum x.
+Proof.
+  intros Ha Eu Ev Ru Rv Hp Hla Hlo. unfold ground_speed.
+  replace (@alt_out_of_range RNum alt) with false.
+  - rewrite Eu, Ev.
+    destruct (interp3_live _ _ _ tu _ _ _ Ru Hp Hla Hlo) as (u & Hu).
+    destruct (interp3_live _ _ _ tv _ _ _ Rv Hp Hla Hlo) as (v & Hv).
+    rewrite Hu, Hv. eauto.
+  - symmetry. unfold alt_out_of_range, c_alt_max. rnum. apply Rltb_false. lra.
+Qed.
+
 (* ---- non-vacuity examples ---- *)
 Example out_of_nonvacuous : out_of [225; 400; 700; 1000] 1013.25.
 Proof. right. intros x [H|[H|[H|[H|[]]]]]; subst; lra. Qed.
